@@ -2,6 +2,7 @@ package rules
 
 import (
 	"go/ast"
+	"go/token"
 	"go/types"
 	"sort"
 	"strings"
@@ -14,6 +15,7 @@ func init() {
 		c18PacketCreate(c)
 		c18FlushSkeleton(c)
 		c20Snapshot(c, "C18.2b")
+		sliceFifoShapes(c, "C18.2c")
 		c01AtomicTake(c)
 		c18QueueAlignment(c)
 		c18Polarity(c, "C18.3b")
@@ -463,4 +465,124 @@ func c18NotHeld(c *core.Ctx) {
 	}
 	c.Need(R, "application callback sites", n, 25)
 	_ = types.Universe
+}
+
+// sliceFifoShapes — C18.2c / C20.2c / C01.8c: the queue primitives the session
+// relies on (write buffer, callback groups) have the sequence semantics their
+// names promise.
+func sliceFifoShapes(c *core.Ctx, R string) {
+	c.Rule(R, "queue primitives of types.Slice (shape table): Push stores append(s.elements, elements...) — at the tail, all of them; Shift returns s.elements[0] read before the update and drops exactly that element (s.elements[1:], or append(s.elements[:0], s.elements[1:]...), or copy(s.elements, s.elements[1:]) followed by [:len-1] — a copy in the other direction keeps the head and drops the tail); Pop returns s.elements[len-1] and stores s.elements[:len-1]; clear stores s.elements[:0] (or nil)")
+	info0 := func(u *core.Unit) *types.Info { return u.Info() }
+	isElems := func(u *core.Unit, e ast.Expr) bool { return fieldOf(info0(u), e) == "Slice.elements" }
+	isLen := func(u *core.Unit, e ast.Expr) bool {
+		ce, ok := ast.Unparen(e).(*ast.CallExpr)
+		return ok && calleeNameOf(ce) == "len" && len(ce.Args) == 1 && isElems(u, ce.Args[0])
+	}
+	isLenMinus1 := func(u *core.Unit, e ast.Expr) bool {
+		be, ok := ast.Unparen(e).(*ast.BinaryExpr)
+		if !ok || be.Op != token.SUB || !isLen(u, be.X) {
+			return false
+		}
+		v, isC := core.ConstInt(info0(u), be.Y)
+		return isC && v == 1
+	}
+	constIs := func(u *core.Unit, e ast.Expr, want int64) bool {
+		if e == nil {
+			return false
+		}
+		v, ok := core.ConstInt(info0(u), e)
+		return ok && v == want
+	}
+	// tailFrom1: s.elements[1:]
+	tailFrom1 := func(u *core.Unit, e ast.Expr) bool {
+		se, ok := ast.Unparen(e).(*ast.SliceExpr)
+		return ok && isElems(u, se.X) && constIs(u, se.Low, 1) && se.High == nil
+	}
+	// headEmpty: s.elements[:0]
+	headEmpty := func(u *core.Unit, e ast.Expr) bool {
+		se, ok := ast.Unparen(e).(*ast.SliceExpr)
+		return ok && isElems(u, se.X) && (se.Low == nil || constIs(u, se.Low, 0)) && constIs(u, se.High, 0)
+	}
+	allButLast := func(u *core.Unit, e ast.Expr) bool {
+		se, ok := ast.Unparen(e).(*ast.SliceExpr)
+		return ok && isElems(u, se.X) && (se.Low == nil || constIs(u, se.Low, 0)) && se.High != nil && isLenMinus1(u, se.High)
+	}
+	// Push
+	if u := c.Fn(R, "types.(*Slice).Push"); u != nil {
+		as := fieldAssigns(u, "Slice.elements")
+		ok := len(as) == 1
+		if ok {
+			ce, isC := ast.Unparen(as[0].Rhs).(*ast.CallExpr)
+			ok = isC && calleeNameOf(ce) == "append" && len(ce.Args) == 2 && isElems(u, ce.Args[0]) && ce.Ellipsis.IsValid() && isLocal(u.Info(), ce.Args[1], paramName(u, 0))
+		}
+		c.Check(R, "types.(*Slice).Push/append-at-tail", u.Pos(), ok, "s.elements = append(s.elements, elements...)")
+	}
+	// Shift
+	if u := c.Fn(R, "types.(*Slice).Shift"); u != nil {
+		g := u.Graph()
+		var readHead *Assign
+		for _, a := range assignsIn(u, func(l ast.Expr) bool { _, isI := ast.Unparen(l).(*ast.Ident); return isI }) {
+			if ix, isIx := ast.Unparen(a.Rhs).(*ast.IndexExpr); isIx && isElems(u, ix.X) && constIs(u, ix.Index, 0) {
+				a := a
+				readHead = &a
+			}
+		}
+		as := fieldAssigns(u, "Slice.elements")
+		ok := readHead != nil && len(as) == 1
+		why := "head read, single update"
+		if ok {
+			rhs := as[0].Rhs
+			switch {
+			case tailFrom1(u, rhs):
+				why = "s.elements[1:]"
+			case func() bool {
+				ce, isC := ast.Unparen(rhs).(*ast.CallExpr)
+				return isC && calleeNameOf(ce) == "append" && len(ce.Args) == 2 && headEmpty(u, ce.Args[0]) && tailFrom1(u, ce.Args[1]) && ce.Ellipsis.IsValid()
+			}():
+				why = "append(s.elements[:0], s.elements[1:]...)"
+			case allButLast(u, rhs):
+				// needs the shift-down copy first
+				down := false
+				for _, cl := range u.Calls() {
+					if cl.Callee == nil && cl.Name == "copy" && len(cl.Expr.Args) == 2 && g.Dominates(cl.Loc, as[0].Loc) {
+						dst := cl.Expr.Args[0]
+						dstWhole := isElems(u, dst)
+						if se, isS := ast.Unparen(dst).(*ast.SliceExpr); isS && isElems(u, se.X) && (se.Low == nil || constIs(u, se.Low, 0)) {
+							dstWhole = true
+						}
+						if dstWhole && tailFrom1(u, cl.Expr.Args[1]) {
+							down = true
+						}
+					}
+				}
+				ok = down
+				why = "copy(s.elements, s.elements[1:]) then [:len-1]"
+			default:
+				ok = false
+				why = "unrecognised update: " + core.ExprString(rhs)
+			}
+			ok = ok && g.Dominates(readHead.Loc, as[0].Loc)
+		}
+		c.Check(R, "types.(*Slice).Shift/returns-and-drops-the-head", u.Pos(), ok, why)
+	}
+	// Pop
+	if u := c.Fn(R, "types.(*Slice).Pop"); u != nil {
+		g := u.Graph()
+		var readLast *Assign
+		for _, a := range assignsIn(u, func(l ast.Expr) bool { _, isI := ast.Unparen(l).(*ast.Ident); return isI }) {
+			if ix, isIx := ast.Unparen(a.Rhs).(*ast.IndexExpr); isIx && isElems(u, ix.X) && isLenMinus1(u, ix.Index) {
+				a := a
+				readLast = &a
+			}
+		}
+		as := fieldAssigns(u, "Slice.elements")
+		ok := readLast != nil && len(as) == 1 && allButLast(u, as[0].Rhs) && g.Dominates(readLast.Loc, as[0].Loc)
+		c.Check(R, "types.(*Slice).Pop/returns-and-drops-the-last", u.Pos(), ok, "element = s.elements[len-1]; s.elements = s.elements[:len-1]")
+	}
+	// clear
+	if u := c.Fn(R, "types.(*Slice).clear"); u != nil {
+		as := fieldAssigns(u, "Slice.elements")
+		ok := len(as) == 1 && (headEmpty(u, as[0].Rhs) || core.IsNil(u.Info(), as[0].Rhs))
+		c.Check(R, "types.(*Slice).clear/empties", u.Pos(), ok, "s.elements = s.elements[:0]")
+	}
 }
